@@ -5,6 +5,7 @@ import (
 	"bytes"
 	"errors"
 	"fmt"
+	"io"
 	"os"
 	"reflect"
 	"unsafe"
@@ -121,7 +122,17 @@ func (f fileRes) coqClass() string {
 	return map[string]string{"ok": "CkOk", "err": "CkErr", "cb": "CkCb", "panic": "CkPanic"}[f.Class]
 }
 
-var errCallback = errors.New("callback refuses this record")
+// the error a failing callback returns: its own sentinel, or one of the values the
+// library itself treats specially elsewhere (end of input), bare or wrapped
+var errCallback error = errors.New("callback refuses this record")
+
+var callbackErrors = []error{
+	errors.New("callback refuses this record"), io.EOF, io.ErrUnexpectedEOF,
+	fmt.Errorf("callback gives up: %w", io.EOF), io.ErrShortBuffer, errors.New(""),
+}
+
+// dirtyDest: a value of the target type left over from an earlier read (pointer-form out).
+var dirtyDest reflect.Value
 
 // nestedRead: when set, the callback reads this other valid container file to
 // its end before it returns (a callback that follows a reference into another
@@ -131,6 +142,9 @@ var nestedRead *genFileT
 func readFileImpl(g *GT, file []byte, cbFail int, buffered bool) (res fileRes) {
 	inner := nestedRead
 	nestedRead = nil
+	if cbFail >= 0 {
+		errCallback = callbackErrors[(cbFail+len(file))%len(callbackErrors)]
+	}
 	defer func() {
 		if p := recover(); p != nil {
 			res.Class, res.Err = "panic", fmt.Errorf("%v", p)
@@ -145,7 +159,13 @@ func readFileImpl(g *GT, file []byte, cbFail int, buffered bool) (res fileRes) {
 	// form decodes into the caller's own variable
 	var out any = reflect.New(rt).Elem().Interface()
 	if buffered {
-		out = reflect.New(rt).Interface()
+		// the caller's own variable, holding whatever an earlier use left in it: every
+		// record is decoded into a cleared destination all the same
+		dst := reflect.New(rt)
+		if dirtyDest.IsValid() && dirtyDest.Type() == rt {
+			dst.Elem().Set(dirtyDest)
+		}
+		out = dst.Interface()
 	}
 	err := avro.ReadFile(rd, out, func(val unsafe.Pointer, rb *avro.ResourceBank) error {
 		v := reflect.New(rt).Elem()
@@ -289,6 +309,10 @@ func runC07(r *Run) {
 		r.Count(fmt.Sprintf("blocks/%d", len(gf.perBlk)))
 
 		// (1) valid file: every record, in order
+		dirtyDest = reflect.Value{}
+		if total > 0 {
+			dirtyDest = gf.wants[total-1]
+		}
 		res := readFileImpl(gf.g, gf.file, -1, i%2 == 0)
 		id := addFileCase(r, gf, gf.file, -1, res, desc, fmt.Sprintf("valid/%x", gf.file))
 		if res.Class != "ok" {
